@@ -122,6 +122,34 @@ class SymCtx(BaseCtx):
             return a <= b
         return a <= b + rtol * scale
 
+    def abs_lin_le(self, expr, weights, arr, force_solver=False):
+        """claim |expr| <= sum_k weights[k]*|arr[k]| for a linear form expr over the input variables arr[k].
+        Decided by the complete rule for this fragment (|c_k| <= w_k for every k and no other term: necessity by
+        arr = e_k, sufficiency by the triangle inequality); if the rule does not apply or fails, the formula goes
+        to the solver, which then produces the counterexample."""
+        from vf.engine import scalars as S
+        rhs = 0.0
+        for wv, x in zip(weights, arr):
+            rhs = rhs + wv * S.sym_abs(x)
+        if not isinstance(expr, S.SR):
+            return abs(expr) <= 1e-300 if not isinstance(rhs, S.SR) else (abs(expr) <= rhs)
+        formula = S.sym_abs(expr) <= rhs
+        if force_solver:
+            return formula
+        keys = {}
+        for k, x in enumerate(arr):
+            if isinstance(x, S.SR) and len(x.p) == 1:
+                (m, c), = x.p.items()
+                if c == 1 and len(m) == 1 and m[0][1] == 1:
+                    keys[m] = k
+        ok = True
+        for m, c in expr.p.items():
+            k = keys.get(m)
+            if k is None or abs(c) > S.to_frac(weights[k]):
+                ok = False
+                break
+        return True if ok else formula
+
 
 class ConcCtx(BaseCtx):
     symbolic = False
@@ -157,6 +185,10 @@ class ConcCtx(BaseCtx):
         if scale is None:
             return bool(a <= b + RTOL_C * max(abs(a), abs(b)))
         return bool(a <= b + rtol * abs(scale))
+
+    def abs_lin_le(self, expr, weights, arr, force_solver=False):
+        rhs = sum(float(w) * abs(float(x)) for w, x in zip(weights, arr))
+        return bool(abs(expr) <= rhs * (1 + 1e-9) + 1e-300)
 
 
 # ---------------------------------------------------------------------------------
